@@ -4,6 +4,7 @@ import (
 	"godsverif/core"
 
 	"github.com/emirpasic/gods/v2/containers"
+	"github.com/emirpasic/gods/v2/lists"
 	"github.com/emirpasic/gods/v2/lists/arraylist"
 	"github.com/emirpasic/gods/v2/lists/doublylinkedlist"
 	"github.com/emirpasic/gods/v2/lists/singlylinkedlist"
@@ -31,10 +32,51 @@ type enumIdx[T comparable] struct {
 	mp    func(f func(int, T) T) *enumIdx[T]
 	add   func(vs ...T)
 	fresh func() *enumIdx[T] // same kind, same comparator, empty
+	// mut applies in-place mutation number i (overwrite, swap, sort, remove,
+	// insert, append - whatever the kind offers) drawn from the seed; the same
+	// (i, seed) on two containers with equal content gives equal content.
+	mut func(i int, seed uint64, d *Dom[T])
+}
+
+// listMut / setMut are the in-place mutators used by the independence probes.
+func listMut[T comparable](l lists.List[T]) func(i int, seed uint64, d *Dom[T]) {
+	return func(i int, seed uint64, d *Dom[T]) {
+		r := core.NewR(seed)
+		n := l.Size()
+		switch i % 6 {
+		case 0:
+			l.Set(r.Range(0, max(n-1, 0)), d.Val(r))
+		case 1:
+			l.Swap(0, n-1)
+		case 2:
+			l.Sort(d.Cmps[1].F)
+		case 3:
+			l.Remove(r.Range(0, max(n-1, 0)))
+		case 4:
+			l.Insert(r.Range(0, n), d.Val(r))
+		default:
+			l.Add(d.Val(r), d.Val(r))
+		}
+	}
+}
+
+func setMut[T comparable](s interface {
+	Values() []T
+	Add(...T)
+	Remove(...T)
+}) func(i int, seed uint64, d *Dom[T]) {
+	return func(i int, seed uint64, d *Dom[T]) {
+		r := core.NewR(seed)
+		if vs := s.Values(); i%2 == 0 && len(vs) > 0 {
+			s.Remove(vs[r.Intn(len(vs))])
+		} else {
+			s.Add(d.AnyVal(r))
+		}
+	}
 }
 
 func wrapAL[T comparable](l *arraylist.List[T]) *enumIdx[T] {
-	e := &enumIdx[T]{kind: "ArrayList", C: l, E: l, raw: l, add: l.Add}
+	e := &enumIdx[T]{kind: "ArrayList", C: l, E: l, raw: l, add: l.Add, mut: listMut[T](l)}
 	e.iter = func() containers.IteratorWithIndex[T] { return l.Iterator() }
 	e.sel = func(f func(int, T) bool) *enumIdx[T] { return wrapAL(l.Select(f)) }
 	e.mp = func(f func(int, T) T) *enumIdx[T] { return wrapAL(l.Map(f)) }
@@ -42,7 +84,7 @@ func wrapAL[T comparable](l *arraylist.List[T]) *enumIdx[T] {
 	return e
 }
 func wrapSL[T comparable](l *singlylinkedlist.List[T]) *enumIdx[T] {
-	e := &enumIdx[T]{kind: "SinglyLinkedList", C: l, E: l, raw: l, add: l.Add}
+	e := &enumIdx[T]{kind: "SinglyLinkedList", C: l, E: l, raw: l, add: l.Add, mut: listMut[T](l)}
 	e.iter = func() containers.IteratorWithIndex[T] { return l.Iterator() }
 	e.sel = func(f func(int, T) bool) *enumIdx[T] { return wrapSL(l.Select(f)) }
 	e.mp = func(f func(int, T) T) *enumIdx[T] { return wrapSL(l.Map(f)) }
@@ -50,7 +92,7 @@ func wrapSL[T comparable](l *singlylinkedlist.List[T]) *enumIdx[T] {
 	return e
 }
 func wrapDL[T comparable](l *doublylinkedlist.List[T]) *enumIdx[T] {
-	e := &enumIdx[T]{kind: "DoublyLinkedList", C: l, E: l, raw: l, add: l.Add}
+	e := &enumIdx[T]{kind: "DoublyLinkedList", C: l, E: l, raw: l, add: l.Add, mut: listMut[T](l)}
 	e.iter = func() containers.IteratorWithIndex[T] { it := l.Iterator(); return &it }
 	e.sel = func(f func(int, T) bool) *enumIdx[T] { return wrapDL(l.Select(f)) }
 	e.mp = func(f func(int, T) T) *enumIdx[T] { return wrapDL(l.Map(f)) }
@@ -58,7 +100,7 @@ func wrapDL[T comparable](l *doublylinkedlist.List[T]) *enumIdx[T] {
 	return e
 }
 func wrapTS[T comparable](s *treeset.Set[T], cmp func(a, b T) int) *enumIdx[T] {
-	e := &enumIdx[T]{kind: "TreeSet", C: s, E: s, raw: s, add: s.Add}
+	e := &enumIdx[T]{kind: "TreeSet", C: s, E: s, raw: s, add: s.Add, mut: setMut[T](s)}
 	e.iter = func() containers.IteratorWithIndex[T] { it := s.Iterator(); return &it }
 	e.sel = func(f func(int, T) bool) *enumIdx[T] { return wrapTS(s.Select(f), cmp) }
 	e.mp = func(f func(int, T) T) *enumIdx[T] { return wrapTS(s.Map(f), cmp) }
@@ -66,7 +108,7 @@ func wrapTS[T comparable](s *treeset.Set[T], cmp func(a, b T) int) *enumIdx[T] {
 	return e
 }
 func wrapLS[T comparable](s *linkedhashset.Set[T]) *enumIdx[T] {
-	e := &enumIdx[T]{kind: "LinkedHashSet", C: s, E: s, raw: s, add: s.Add}
+	e := &enumIdx[T]{kind: "LinkedHashSet", C: s, E: s, raw: s, add: s.Add, mut: setMut[T](s)}
 	e.iter = func() containers.IteratorWithIndex[T] { it := s.Iterator(); return &it }
 	e.sel = func(f func(int, T) bool) *enumIdx[T] { return wrapLS(s.Select(f)) }
 	e.mp = func(f func(int, T) T) *enumIdx[T] { return wrapLS(s.Map(f)) }
@@ -207,6 +249,7 @@ func runEnumIdx[T comparable](c *core.Ctx, e *enumIdx[T], d *Dom[T], mapf []func
 		c.Count("obs:Map", 1)
 	}
 	c.State(core.Mix(core.HashString(kind), uint64(n), hashVals(e.C.Values())))
+	e.receiverToResult(c, d)
 }
 
 // independent: further inserts into the result behave as on a fresh
@@ -216,24 +259,60 @@ func (e *enumIdx[T]) independent(c *core.Ctx, op string, res *enumIdx[T], conten
 	r := c.R
 	oracle := e.fresh()
 	oracle.add(content...)
-	for k := 0; k < 3; k++ {
+	// in-place mutations of the result (overwrite, swap, sort, remove, insert,
+	// append) and further Adds: the result must behave like a fresh container
+	// with the receiver's comparator, and nothing may reach the receiver
+	for k := 0; k < 4; k++ {
+		i, seed := r.Intn(6), r.U64()
+		res.mut(i, seed, d)
+		oracle.mut(i, seed, d)
 		x := d.AnyVal(r)
 		res.add(x)
 		oracle.add(x)
-	}
-	rv, ov := res.C.Values(), oracle.C.Values()
-	if !eqSlices(rv, ov) {
-		c.Fail(lower(op), "result-discipline", "%s.%s result after 3 further Adds enumerates %s; a fresh %s with the same comparator gives %s", e.kind, op, short(rv), e.kind, short(ov))
-	}
-	after := e.walk()
-	if len(after) != len(before) {
-		c.Fail(lower(op), "shares-state", "%s.%s: adding to the result changed the receiver (%d -> %d elements)", e.kind, op, len(before), len(after))
-	}
-	for i := range after {
-		if after[i] != before[i] {
-			c.Fail(lower(op), "shares-state", "%s.%s: adding to the result changed the receiver at position %d", e.kind, op, i)
+		rv, ov := res.C.Values(), oracle.C.Values()
+		if !eqSlices(rv, ov) {
+			c.Fail(lower(op), "result-discipline", "%s.%s result after further in-place changes and Adds enumerates %s; a fresh %s with the same comparator and content gives %s", e.kind, op, short(rv), e.kind, short(ov))
+		}
+		after := e.walk()
+		if len(after) != len(before) {
+			c.Fail(lower(op), "shares-state", "%s.%s: changing the result changed the receiver (%d -> %d elements)", e.kind, op, len(before), len(after))
+		}
+		for j := range after {
+			if after[j] != before[j] {
+				c.Fail(lower(op), "shares-state", "%s.%s: changing the result changed the receiver at position %d: %v -> %v", e.kind, op, j, before[j], after[j])
+			}
 		}
 	}
+}
+
+// receiverToResult is the other direction: results taken first, then the
+// receiver is changed in place; no result may change. Run last in a case.
+func (e *enumIdx[T]) receiverToResult(c *core.Ctx, d *Dom[T]) {
+	r := c.R
+	type held struct {
+		name string
+		res  *enumIdx[T]
+		was  []T
+	}
+	var hs []held
+	take := func(name string, res *enumIdx[T]) { hs = append(hs, held{name, res, res.C.Values()}) }
+	c.Begin(e.kind, "Select", "always")
+	take("Select(always)", e.sel(func(int, T) bool { return true }))
+	c.Begin(e.kind, "Select", "even-index")
+	take("Select(even index)", e.sel(func(i int, _ T) bool { return i%2 == 0 }))
+	c.Begin(e.kind, "Map", "identity")
+	take("Map(identity)", e.mp(func(_ int, v T) T { return v }))
+	for k := 0; k < 5; k++ {
+		c.Begin(e.kind, "mutate-receiver-in-place", k)
+		e.mut(r.Intn(6), r.U64(), d)
+		e.add(d.AnyVal(r))
+		for _, h := range hs {
+			if now := h.res.C.Values(); !eqSlices(now, h.was) {
+				c.Fail("shares-state", "receiver-to-result", "%s: the result of %s changed (%s -> %s) when the receiver was changed afterwards", e.kind, h.name, short(h.was), short(now))
+			}
+		}
+	}
+	c.Count("obs:receiver-to-result", 1)
 }
 
 func lower(s string) string {
@@ -432,31 +511,87 @@ func runEnumKey(c *core.Ctx, e *enumKey[int, int], d *Dom[int]) {
 		c.Count("obs:Map", 1)
 	}
 	c.State(core.Mix(core.HashString(kind), uint64(n), hashVals(e.M.Keys()), hashVals(e.M.Values())))
+	e.receiverToResult(c, d)
 }
 
 func (e *enumKey[K, V]) independent(c *core.Ctx, op string, res, oracle *enumKey[K, V], d *Dom[K], before []kvPair[K, V]) {
 	r := c.R
-	for k := 0; k < 3; k++ {
-		key := d.AnyVal(r)
+	val := func() V {
 		var v V
 		if iv, ok := any(r.Intn(8) * 6).(V); ok {
 			v = iv
 		}
+		return v
+	}
+	for k := 0; k < 4; k++ {
+		// a new key, an in-place update of an existing key, a removal
+		key, v := d.AnyVal(r), val()
 		res.M.Put(key, v)
 		oracle.M.Put(key, v)
-	}
-	if why, ok := res.sameAs(oracle); !ok {
-		c.Fail(lower(op), "result-discipline", "%s.%s result after 3 further Puts is %v; a fresh %s with the receiver's comparators gives %v (%s)", e.kind, op, res.walk(), e.kind, oracle.walk(), why)
-	}
-	after := e.walk()
-	if len(after) != len(before) {
-		c.Fail(lower(op), "shares-state", "%s.%s: Put on the result changed the receiver (%d -> %d pairs)", e.kind, op, len(before), len(after))
-	}
-	for i := range after {
-		if after[i] != before[i] {
-			c.Fail(lower(op), "shares-state", "%s.%s: Put on the result changed the receiver at position %d", e.kind, op, i)
+		if ks := oracle.M.Keys(); len(ks) > 0 {
+			ek, ev := ks[r.Intn(len(ks))], val()
+			res.M.Put(ek, ev)
+			oracle.M.Put(ek, ev)
+			if k%2 == 1 {
+				rk := ks[r.Intn(len(ks))]
+				res.M.Remove(rk)
+				oracle.M.Remove(rk)
+			}
+		}
+		if why, ok := res.sameAs(oracle); !ok {
+			c.Fail(lower(op), "result-discipline", "%s.%s result after further Puts, updates and Removes is %v; a fresh %s with the receiver's comparators and the same content gives %v (%s)", e.kind, op, res.walk(), e.kind, oracle.walk(), why)
+		}
+		after := e.walk()
+		if len(after) != len(before) {
+			c.Fail(lower(op), "shares-state", "%s.%s: changing the result changed the receiver (%d -> %d pairs)", e.kind, op, len(before), len(after))
+		}
+		for i := range after {
+			if after[i] != before[i] {
+				c.Fail(lower(op), "shares-state", "%s.%s: changing the result changed the receiver at position %d: %v -> %v", e.kind, op, i, before[i], after[i])
+			}
 		}
 	}
+}
+
+// receiverToResult: results taken first, then the receiver is changed; no
+// result may change. Run last in a case.
+func (e *enumKey[K, V]) receiverToResult(c *core.Ctx, d *Dom[K]) {
+	r := c.R
+	type held struct {
+		name string
+		res  *enumKey[K, V]
+		was  []kvPair[K, V]
+	}
+	var hs []held
+	take := func(name string, res *enumKey[K, V]) { hs = append(hs, held{name, res, res.walk()}) }
+	c.Begin(e.kind, "Select", "always")
+	take("Select(always)", e.sel(func(K, V) bool { return true }))
+	c.Begin(e.kind, "Map", "identity")
+	take("Map(identity)", e.mp(func(k K, v V) (K, V) { return k, v }))
+	for k := 0; k < 5; k++ {
+		c.Begin(e.kind, "mutate-receiver", k)
+		var v V
+		if iv, ok := any(r.Intn(8)*6 + 3).(V); ok {
+			v = iv
+		}
+		if ks := e.M.Keys(); len(ks) > 0 && k%2 == 0 {
+			e.M.Put(ks[r.Intn(len(ks))], v) // in-place update
+			e.M.Remove(ks[r.Intn(len(ks))])
+		} else {
+			e.M.Put(d.AnyVal(r), v)
+		}
+		for _, h := range hs {
+			now := h.res.walk()
+			same := len(now) == len(h.was)
+			for i := range now {
+				same = same && now[i] == h.was[i]
+			}
+			if !same {
+				c.Fail("shares-state", "receiver-to-result", "%s: the result of %s changed (%v -> %v) when the receiver was changed afterwards", e.kind, h.name, h.was, now)
+			}
+		}
+	}
+	c.Count("obs:receiver-to-result", 1)
 }
 
 var enumKinds = []string{"ArrayList", "SinglyLinkedList", "DoublyLinkedList", "TreeSet", "LinkedHashSet", "TreeMap", "LinkedHashMap", "TreeBidiMap"}
